@@ -34,6 +34,48 @@ def evalBatch (f : List α → List α) (nout : Nat) (box : Option (List (α × 
 /-- `pixel_bounds`: the box as stored (F order), or `None` -/
 def pixelBounds (box : Option (List (α × α))) : Option (List (α × α)) := box
 
+
+/-! ### storage order
+
+astropy's `ModelBoundingBox` keeps its intervals together with an `order` flag: `'F'` = first input first (x, y, …), `'C'` = last input
+first (the order of array indices, astropy's default when a box is set on a model). gwcs' setter stores tuples as `'F'`, keeps the order
+of a `ModelBoundingBox` it is handed, and masks, reports (`pixel_bounds`) and exports per *input axis*, i.e. through the `'F'` reading. -/
+
+inductive BoxOrder where
+  | F | C
+deriving DecidableEq, Repr
+
+/-- a box as stored: the interval list is in the box's own order -/
+structure OBox (α : Type) where
+  order : BoxOrder
+  stored : List (α × α)
+
+/-- `ModelBoundingBox.bounding_box(order='F')`: one interval per input axis, first input first -/
+def OBox.toF (b : OBox α) : List (α × α) :=
+  match b.order with
+  | .F => b.stored
+  | .C => b.stored.reverse
+
+/-- `ModelBoundingBox.bounding_box()` with no argument: the box's own order -/
+def OBox.own (b : OBox α) : List (α × α) := b.stored
+
+/-- what the WCS setter is given: a plain tuple (read as x, y, …) or a box object with its own order -/
+inductive BoxArg (α : Type) where
+  | tuple (t : List (α × α))
+  | obj (b : OBox α)
+
+/-- `WCS.bounding_box = value` (validation of the length aside) -/
+def setOBox : BoxArg α → OBox α
+  | .tuple t => ⟨.F, t⟩
+  | .obj b => b
+
+/-- a box set directly on the astropy model with a tuple: astropy reads the tuple last input first -/
+def modelBox (t : List (α × α)) : OBox α := ⟨.C, t⟩
+
+/-- evaluation masks through the per-axis reading -/
+def evalMaskedO (f : List α → List α) (nout : Nat) (box : Option (OBox α)) (withBB : Bool) (fill : α) (x : List α) : List α :=
+  evalMasked f nout (box.map OBox.toF) withBB fill x
+
 /-- the separable affine transform used by the correspondence: outᵢ = xᵢ·aᵢ + bᵢ
     (astropy `Scale(a) | Shift(b)` per axis) -/
 def affine [Mul α] [Add α] (ab : List (α × α)) (x : List α) : List α :=
